@@ -73,6 +73,10 @@ def pool():
     return POOL
 
 
+def obs_of(e):
+    return (e.timestamp, e.data, tuple(e.values), e.tid, e.debugid, e.eventid, e.func_qualifier)
+
+
 class C01(Check):
     pid = 'C01'
     level = 'exploration'
@@ -81,7 +85,7 @@ class C01(Check):
             'the low and of the high half of the debug id on two bases, (d) all ordered sequences of <=3 decodes over a '
             'pool of 8 records that share sub-fields (result must equal the solo decode), (e) all ordered triples over a 9-record pool '
             'reached through the container parsers (a v2 dump; v3 dumps for every composition of the 3 records into 1..3 chunks; two '
-            'v2 parses alive at once under every interleaving; records beginning with the v2 magic / a v3 tag; inter-chunk fillers of 4060..4099 bytes). Oracle: independent byte-slicing '
+            'v2 parses alive at once under every interleaving; records beginning with the v2 magic / a v3 tag; inter-chunk fillers of 4060..4099 bytes), (f) every event id of the bundled code table (thorough: under each of the 4 qualifiers) as the first and third record of a 4-record dump whose later records carry OLDER timestamps, through a v2 dump, a two-chunk v3 dump and the facade listing. Oracle: independent byte-slicing '
             'decoder, the algebraic clauses, rebuild of the first 52 bytes, single-bit non-interference. Distinct by '
             'construction per sub-space; non-trivial = the record differs from its base (or, for histories, has length >=2).')
     assumptions = ('2^512 records are not enumerable: a special case keyed on a specific value outside the enumerated shapes '
@@ -104,6 +108,9 @@ class C01(Check):
             out.append(('dbg16', bn, 1))
         out.append(('hist',))
         out.append(('containers',))
+        # every id of the bundled table (and, thorough, each qualifier) inside a dump whose later records are OLDER
+        for lo in range(0, 3200, 400):
+            out.append(('codes', lo, lo + 400))
         if self.tier == 'thorough':
             # radius 3 around the captured record: C(512,3) = 22.2M records, sharded by the first flipped bit
             for lo in range(0, 510):
@@ -167,6 +174,34 @@ class C01(Check):
                 off = 48 + 2 * half
                 b = base[:off] + v.to_bytes(2, 'little') + base[off + 2:]
                 self._one(acc, b, ('dbg16', bn, half, v), nontrivial=True)
+        elif kind == 'codes':
+            import io
+            from mc import build as B
+            from mc import ev as E
+            from pykdebugparser.kd_buf_parser import KdBufParser
+            from pykdebugparser.pykdebugparser import PyKdebugParser
+            ids = sorted(E.codes())[desc[1]:desc[2]]
+            other = E.n2i('BSC_getpid')
+            for cid in ids:
+                for q in ((0, 1, 2, 3) if self.tier == 'thorough' else (0,)):
+                    recs = [B.rec(100, (1, 2, 3, 4), 5, cid | q), B.rec(50, (9, 8, 7, 6), 5, other | 1),
+                            B.rec(100, (1, 2, 3, 4), 5, cid | q), B.rec(0, (9, 8, 7, 6), 6, other | 2)]
+                    exp = [ref_decode(r) for r in recs]
+                    for label in ('v2', 'v3', 'facade'):
+                        try:
+                            if label == 'v2':
+                                got = [obs_of(e) for e in KdBufParser({}, {}).parse(io.BytesIO(B.v2([(5, 2, 'a')], 0, recs)))]
+                            elif label == 'v3':
+                                got = [obs_of(e) for e in KdBufParser({}, {}).parse(io.BytesIO(B.v3([(5, 2, 'a')], [recs[:2], recs[2:]])))]
+                            else:
+                                got = [obs_of(e) for e in PyKdebugParser().kevents(io.BytesIO(B.v2([(5, 2, 'a')], 0, recs)))]
+                        except Exception as ex:
+                            got = repr(ex)
+                        acc.case(nontrivial=True, transitions=4, outcome=h64(cid >> 16))
+                        if got != exp:
+                            acc.violation('record-decoded-differently-through-container:' + label + ':by-event-id',
+                                          {'kind': 'codes', 'id': cid | q, 'label': label}, {'got': repr(got)[:300], 'expected': repr(exp)[:300]})
+            acc.sample({'event_id_swept': hex(ids[0]) if ids else None})
         elif kind == 'containers':
             # the same records reached through the container parsers (v2; v3 split over 1..3 chunks; two parses alive at once)
             import io
@@ -277,6 +312,13 @@ class C01(Check):
             elif must is None:
                 must = [owner]
             return [('interference:' + owner, {'changed': changed, 'expected': must})] if changed != sorted(must) else []
+        if case['kind'] == 'codes':
+            from mc.run import Acc
+            from mc import ev as E
+            acc = Acc()
+            k = sorted(E.codes()).index(case['id'] & ~3)
+            self.run_shard(('codes', k, k + 1), acc)
+            return [(sig, v['cases'][0][1]) for sig, v in acc.violations.items()]
         if case['kind'].startswith('container'):
             from mc.run import Acc
             acc = Acc()
